@@ -4,22 +4,32 @@ sequences and prints what they report after every call.  Decides nothing.
 stdin JSON: {"cases": [{"logic", "arg", "opts": {max_steps, build_timeout, is_build_models,
                         auto_build_trunk}, "ops": [op...]}...]}
   op: ["step", fire_step, fire_models] | ["finish", fire_models] | ["build", k|null, fire_models]
-      | ["set_argument"] | ["set_logic"] | ["build_trunk"] | ["add_rule"]
+      | ["set_argument"] | ["set_logic"] | ["build_trunk"] | ["add_rule"] | ["hand_branch"]
+  hand_branch is  b = tab.branch(); b.append(node)  with one node carrying the conjunction a & b and
+  the properties the case's logic needs (designated=True iff its rules carry designation markers,
+  world=0 iff Meta.modal), whether or not the tableau has that logic (yet).
   fire_* ask the substituted build timer to report a huge elapsed time at that consultation (k: at
   the k-th consultation made by step() during this call); with all of them false the timer reports
   the real elapsed time.
-stdout JSON: {"cases": [{"n", "closes", "nrules", "measure_error", "trace": [{"res", "consults":
+stdout JSON: {"cases": [{"n", "closes", "nrules", "h", "hand_ok", "hand", "measure_error", "trace": [{"res", "consults":
   [[who, value, bit]...], "obs": {...}}...]}...]}
   n / closes / nrules are measured first on a separate unlimited tableau of the same logic and
   argument (node hash counter reset before each construction so that both runs search alike).
+  h = number of rule applications one hand-made branch supplies in that logic (tableau with the
+  logic, no argument, one hand-made branch, build); hand_ok = the branch stays open and two such
+  branches supply exactly 2h (measured with max_steps=60), and for this argument the proof has n + h,
+  n + h, n + 2h steps and the same open trunk branches when one hand-made branch is made before / after
+  / before and after the trunk (hand_ctx; the search order depends on node hashes, so n may depend on how
+  many nodes were made earlier); hand = the raw per-logic measurements.
 """
 import json
 import sys
 
 
 def main():
-    from pytableaux.lang import Argument
-    from pytableaux.proof import Tableau, common
+    from pytableaux.lang import Argument, Atomic, Operator
+    from pytableaux.logics import registry
+    from pytableaux.proof import Tableau, common, sdwnode
     from pytableaux.proof.rules import NoopRule
     from pytableaux.tools.timing import StopWatch
     req = json.load(sys.stdin)
@@ -53,9 +63,9 @@ def main():
             self.log.append([who, val, bool(val > self.timeout)])
             return val
 
-    def reset():
+    def reset(start=0):
         try:
-            common._verif_serial[0] = 0
+            common._verif_serial[0] = start
         except AttributeError:
             pass
 
@@ -69,6 +79,44 @@ def main():
                     hist=len(tab.history), nrules=len(tab.rules), has_arg=tab.argument is not None,
                     has_logic=tab.logic is not None, nopen=len(tab.open), nbranches=len(tab))
 
+    conj = Operator.Conjunction(Atomic(0, 0), Atomic(1, 0))
+
+    def hand_node(logic):
+        lg = registry(logic)
+        has_des = any(getattr(r, 'designation', None) is not None for g in lg.Rules.groups for r in g)
+        return sdwnode(conj, True if has_des else None, 0 if lg.Meta.modal else None)
+
+    def hand_branch(tab, logic):
+        b = tab.branch()
+        b.append(hand_node(logic))
+        return b
+
+    hand_measured = {}
+    ctx_measured = {}
+
+    def measure_hand(logic):
+        if logic not in hand_measured:
+            m = dict(h=None, ok=False)
+            try:
+                runs = []
+                for k in (1, 2):
+                    reset()
+                    t = Tableau(logic, max_steps=60)
+                    bs = [hand_branch(t, logic) for _ in range(k)]
+                    mid = Flag.STARTED in t.flag or Flag.TRUNK_BUILT in t.flag or not t.rules.locked
+                    t.build()
+                    runs.append(dict(steps=len(t.history), premature=bool(t.premature), nopen=len(t.open), nbranches=len(t),
+                                     rules=[e.rule.name for e in t.history][:8], flags_before_step_wrong=bool(mid),
+                                     started=Flag.STARTED in t.flag, trunk=Flag.TRUNK_BUILT in t.flag))
+                m['runs'] = runs
+                m['h'] = runs[0]['steps']
+                m['ok'] = bool(not runs[0]['premature'] and not runs[1]['premature'] and runs[1]['steps'] == 2 * runs[0]['steps']
+                               and runs[0]['nopen'] == runs[0]['nbranches'] == 1 and runs[1]['nopen'] == runs[1]['nbranches'] == 2)
+            except Exception as e:  # noqa
+                m['error'] = f'{type(e).__name__}: {e}'[:200]
+            hand_measured[logic] = m
+        return hand_measured[logic]
+
     out = []
     measured = {}
     for case in req['cases']:
@@ -79,10 +127,42 @@ def main():
             try:
                 reset()
                 t0 = Tableau(logic, Argument(arg), max_steps=400).build()
-                measured[logic, arg] = (len(t0.history) if not t0.premature else None, bool(t0.valid), len(t0.rules), None)
+                measured[logic, arg] = (len(t0.history) if not t0.premature else None, bool(t0.valid), len(t0.rules), None, len(t0.open))
             except Exception as e:  # noqa
-                measured[logic, arg] = (None, None, None, f'{type(e).__name__}: {e}'[:200])
-        rec['n'], rec['closes'], rec['nrules'], rec['measure_error'] = measured[logic, arg]
+                measured[logic, arg] = (None, None, None, f'{type(e).__name__}: {e}'[:200], None)
+        rec['n'], rec['closes'], rec['nrules'], rec['measure_error'] = measured[logic, arg][:4]
+        hm = measure_hand(logic)
+        rec['h'], rec['hand_ok'], rec['hand'] = hm['h'], hm['ok'], hm
+        if hm['ok'] and rec['n'] is not None:
+            # the trunk's proof must have its length n whatever hand-made branches surround it (the search
+            # order depends on node hashes, hence on how many nodes were made before): three canonical contexts
+            if (logic, arg) not in ctx_measured:
+                cm = dict(ok=False, totals=[])
+                try:
+                    for pre, post in ((1, 0), (0, 1), (1, 1)):
+                        reset()
+                        t = Tableau(logic, max_steps=400 + 2 * hm['h'])
+                        for _ in range(pre):
+                            hand_branch(t, logic)
+                        t.argument = Argument(arg)
+                        for _ in range(post):
+                            hand_branch(t, logic)
+                        t.build()
+                        cm['totals'].append([len(t.history), bool(t.premature), len(t.open) - pre - post])
+                    n0, open0 = measured[logic, arg][0], measured[logic, arg][4]
+                    # ... and must not depend on where the node-hash counter starts
+                    cm['offsets'] = []
+                    for off in range(1, 6):
+                        reset(off)
+                        t = Tableau(logic, Argument(arg), max_steps=400).build()
+                        cm['offsets'].append([len(t.history), bool(t.premature), len(t.open)])
+                    cm['ok'] = all(x == [n0, False, open0] for x in cm['offsets']) and all(tot == n0 + (pre + post) * hm['h'] and not prem and o == open0
+                                   for (tot, prem, o), (pre, post) in zip(cm['totals'], ((1, 0), (0, 1), (1, 1))))
+                except Exception as e:  # noqa
+                    cm['error'] = f'{type(e).__name__}: {e}'[:200]
+                ctx_measured[logic, arg] = cm
+            rec['hand_ctx'] = ctx_measured[logic, arg]
+            rec['hand_ok'] = bool(ctx_measured[logic, arg]['ok'])
         if rec['n'] is None:
             rec['measure_error'] = rec['measure_error'] or 'longer than 400 steps'
             continue
@@ -123,6 +203,9 @@ def main():
                     res = 'ok'
                 elif kind == 'add_rule':
                     tab.rules.append(ExtraRule)
+                    res = 'ok'
+                elif kind == 'hand_branch':
+                    hand_branch(tab, logic)
                     res = 'ok'
                 else:
                     res = 'bad-op'
